@@ -24,8 +24,8 @@ var c04Init = []string{
 	"",
 	"\n\n",
 	"2021-03-10\n",
-	"2021-03-10\nWork #day\n    8:00 - ? Coding #proj=7 #x\n",
-	"2021-03-10 (8h!)\n    1h\n    9:00-?? First\n        second line #t\n",
+	"2021-03-10\nWork #day\n    8:00 - ? Coding (plan: 9:00 - ?) #proj=7 #x\n", // the summary repeats the placeholder pattern
+	"2021-03-10 (8h!)\n  1h\n  9:00-?? First\n    second line #t\n",            // two-space indentation: the continuation line has four spaces
 	"2021-03-08\n    2h\n\n2021-03-11\n    -30m lunch\n",
 	"2021-03-01\n    1h a\n\n2021-03-09\n    22:00 - ?\n\n2021-03-20\n",
 	"2021-03-10\n    1h\n\n2021-03-10\n    8:00 - ?\n",
@@ -101,7 +101,7 @@ func c04Ops() []Op {
 }
 
 // the dedicated pause family: every tick sequence of <= n deltas
-var c04Deltas = []int{0, 30, 60, 61, 125, 3600, -60}
+var c04Deltas = []int{0, 30, 60, 61, 125, 3600, -60, 3661, 3725} // seconds since the start (61 and 62 minutes: the pause value gets an hour AND a minute part)
 
 func c04PauseVariants() []Op {
 	return []Op{{Kind: "pause"}, {Kind: "pause", HasSum: true, Summary: "lunch"}, {Kind: "pause", HasSum: true, Summary: "l1\nl2 #own", NoTags: true}, {Kind: "pause", Extend: true}}
